@@ -20,6 +20,10 @@ type Config struct {
 	Thorough bool
 	Caches   []string // chunk cache kinds: mem, dir, dirdirect
 	Single   bool     // the adapter supports ReadAndCache of one chunk
+	// LayerLevel: Stack.NewReader returns an adapter over a layer object (Verify / SkipVerify / l.r).
+	LayerLevel bool
+	// NoMinChunk: leave out blobs built with a min-chunk-size (several chunks per compressed stream).
+	NoMinChunk bool
 }
 
 // compressible pseudo-random content
@@ -63,7 +67,7 @@ type blobSpec struct {
 	minChunk int
 }
 
-func buildPool(rnd *verifutil.Rand, thorough bool) ([]*Blob, error) {
+func buildPool(rnd *verifutil.Rand, thorough, noMinChunk bool) ([]*Blob, error) {
 	specs := []blobSpec{
 		{"gzip", 7, 0}, {"zstd", 16, 0}, {"ext", 5, 0}, {"gzip", 64, 0}, {"gzip", 9, 40}, {"zstd", 11, 60},
 	}
@@ -74,6 +78,9 @@ func buildPool(rnd *verifutil.Rand, thorough bool) ([]*Blob, error) {
 	}
 	var pool []*Blob
 	for _, sp := range specs {
+		if noMinChunk && sp.minChunk > 0 {
+			continue
+		}
 		b, err := BuildBlob(sp.comp, sp.chunk, sp.minChunk, genFiles(rnd, sp.chunk))
 		if err != nil {
 			return nil, fmt.Errorf("build %v: %w", sp, err)
@@ -205,6 +212,7 @@ func open(out *verifutil.Out, rnd *verifutil.Rand, cfg Config, b *Blob, openView
 		return nil
 	}
 	s.Views = views
+	s.LayerLevel = cfg.LayerLevel
 	s.Tag = fmt.Sprintf("%s[%s %s %s]", tag, cfg.Stack.Name, b.Comp, ckind)
 	out.Comment(fmt.Sprintf("session %s open=%s", s.Tag, openView.Kind))
 	out.Emit(s.NewLine(false, false), "ok")
@@ -308,6 +316,24 @@ func scripted(out *verifutil.Out, rnd *verifutil.Rand, cfg Config, b *Blob, ckin
 			s.Close()
 		}
 	}
+	// 4b. background fetch through another reader (Cache(WithReader)): a source that serves a
+	//     consistently forged (chunk, TOC) pair / an altered chunk with the right TOC / an altered TOC
+	for _, k := range []string{"forge", "replace", "toc-digest", "toc-nodigest"} {
+		v := mk(k)
+		if v == nil {
+			continue
+		}
+		if s := open(out, rnd, cfg, b, pr, []*View{pr, v}, ckind, "clone-"+k); s != nil {
+			s.Verify(s.B.D0)
+			if s.CacheClone(v) {
+				s.readAll(rnd)
+				s.setViewC(v)
+				s.readAll(rnd)
+				out.Distinct("clone/" + k + "/" + b.Comp + "/" + ckind + "/" + cfg.Stack.Name)
+			}
+			s.Close()
+		}
+	}
 	// 5. altered TOC at open time
 	for _, k := range []string{"toc-digest", "toc-nodigest", "toc-size", "toc-offset", "toc-same", "toc-trailing", "forge", "ext-bitflip", "truncate", "bitflip-any"} {
 		v := mk(k)
@@ -382,7 +408,7 @@ func random(out *verifutil.Out, rnd *verifutil.Rand, cfg Config, pool []*Blob, i
 			s.setViewC(s.pickView(rnd))
 		}
 		canRead := s.VerifiedOK || undisciplined
-		switch rnd.Pick(3, 1, 3, 2, 8, 2, 1) {
+		switch rnd.Pick(3, 1, 3, 2, 8, 2, 1, 1) {
 		case 0: // verify
 			d := menu[rnd.Intn(len(menu))]
 			if rnd.Intn(3) == 0 {
@@ -441,6 +467,10 @@ func random(out *verifutil.Out, rnd *verifutil.Rand, cfg Config, pool []*Blob, i
 				continue
 			}
 			s.ReadFd(s.randFile(rnd, false))
+		case 7: // background fetch through a clone
+			if s.CacheClone(s.pickView(rnd)) {
+				shape = append(shape, "k")
+			}
 		}
 	}
 	out.Distinct(strings.Join(shape, "/"))
@@ -483,7 +513,7 @@ func race(out *verifutil.Out, rnd *verifutil.Rand, cfg Config, pool []*Blob, idx
 
 // Run generates the scenarios of one harness run.
 func Run(out *verifutil.Out, rnd *verifutil.Rand, cfg Config) error {
-	pool, err := buildPool(rnd, cfg.Thorough)
+	pool, err := buildPool(rnd, cfg.Thorough, cfg.NoMinChunk)
 	if err != nil {
 		return err
 	}
@@ -495,6 +525,188 @@ func Run(out *verifutil.Out, rnd *verifutil.Rand, cfg Config) error {
 	}
 	for i := 0; i < cfg.Races; i++ {
 		race(out, rnd, cfg, pool, i)
+	}
+	return nil
+}
+
+
+// ---------------------------------------------------------------------------------------------
+// layer level: orders of Verify / SkipVerify requests reaching ONE layer object
+
+func layerScripted(out *verifutil.Out, rnd *verifutil.Rand, cfg Config, b *Blob, ckind string) {
+	pr := b.Pristine()
+	var v *View
+	for _, k := range []string{"replace", "replace", "bitflip", "swap"} {
+		if x, ok := b.Alter(rnd, k); ok {
+			v = x
+			break
+		}
+	}
+	if v == nil {
+		return
+	}
+	views := []*View{pr, v}
+	wrong := func(s *Session) digest.Digest { return digestMenu(rnd, s)[1+rnd.Intn(7)] }
+	readAltered := func(s *Session) {
+		s.setViewC(v)
+		if c := s.firstAltered(v); c != nil {
+			s.Read(c.File, c.Off, c.Size)
+			s.Read(c.File, 0, c.File.Size)
+		}
+	}
+	shapes := map[string]func(s *Session){
+		"noreader-read": func(s *Session) { s.readAll(rnd); s.Verify(s.B.D0); s.readAll(rnd) },
+		"skip-verifygood": func(s *Session) {
+			s.Skip()
+			s.Verify(s.B.D0)
+			readAltered(s)
+			s.Verify(s.B.D0)
+			s.readAll(rnd)
+		},
+		"skip-verifybad": func(s *Session) { s.Skip(); s.Verify(wrong(s)); s.Verify(s.B.D0); readAltered(s) },
+		"verifygood-verifybad": func(s *Session) {
+			s.Verify(s.B.D0)
+			s.Verify(wrong(s))
+			s.Verify(digest.FromBytes(rnd.Bytes(8)))
+			readAltered(s)
+			s.Verify(s.B.D0)
+			s.setViewC(pr)
+			s.readAll(rnd)
+		},
+		"verifybad-verifygood": func(s *Session) { s.Verify(wrong(s)); s.readAll(rnd); s.Verify(s.B.D0); readAltered(s); s.readAll(rnd) },
+		"verify-skip-read": func(s *Session) {
+			s.Verify(s.B.D0)
+			s.Skip()
+			readAltered(s)
+			s.setViewC(pr)
+			s.readAll(rnd)
+			s.setViewC(v)
+			s.readAll(rnd)
+		},
+		"skip-read-verify-read": func(s *Session) {
+			s.Skip()
+			readAltered(s)
+			s.Verify(s.B.D0)
+			s.Verify(wrong(s))
+			readAltered(s)
+			s.setViewC(pr)
+			s.readAll(rnd)
+		},
+		"prefetchbad-verify-skip-verify": func(s *Session) {
+			s.setViewC(v)
+			s.CacheAll(nil)
+			s.Verify(s.B.D0)
+			s.Skip()
+			s.Verify(s.B.D0)
+			s.readAll(rnd)
+		},
+		"verify-pass": func(s *Session) {
+			s.Verify(s.B.D0)
+			s.setViewC(v)
+			for _, f := range s.Files {
+				s.Pass(f, 16, 1)
+				s.ReadFd(f)
+			}
+			s.readAll(rnd)
+		},
+	}
+	names := []string{"noreader-read", "skip-verifygood", "skip-verifybad", "verifygood-verifybad", "verifybad-verifygood",
+		"verify-skip-read", "skip-read-verify-read", "prefetchbad-verify-skip-verify", "verify-pass"}
+	for _, n := range names {
+		if s := open(out, rnd, cfg, b, pr, views, ckind, "layer-"+n); s != nil {
+			shapes[n](s)
+			out.Distinct("layer/" + n + "/" + b.Comp + "/" + ckind + "/" + v.Kind)
+			s.Close()
+		}
+	}
+}
+
+func layerRandom(out *verifutil.Out, rnd *verifutil.Rand, cfg Config, pool []*Blob, idx int) {
+	b := pickBlob(rnd, pool)
+	ckind := cfg.Caches[rnd.Intn(len(cfg.Caches))]
+	pr := b.Pristine()
+	views := []*View{pr}
+	var kinds []string
+	for i := 0; i < 1+rnd.Intn(2); i++ {
+		k := AlterKinds[rnd.Intn(len(AlterKinds))]
+		if v, ok := b.Alter(rnd, k); ok {
+			views = append(views, v)
+			kinds = append(kinds, k)
+		}
+	}
+	openView := pr
+	if rnd.Intn(4) == 0 {
+		openView = views[rnd.Intn(len(views))]
+	}
+	s := open(out, rnd, cfg, b, openView, views, ckind, fmt.Sprintf("layer-random#%d", idx))
+	if s == nil {
+		return
+	}
+	defer s.Close()
+	menu := digestMenu(rnd, s)
+	shape := []string{"layer", b.Comp, ckind, openView.Kind, strings.Join(kinds, "+")}
+	for i, nops := 0, 5+rnd.Intn(12); i < nops; i++ {
+		if rnd.Intn(3) == 0 {
+			s.setViewC(s.pickView(rnd))
+		}
+		switch rnd.Pick(4, 2, 7, 2, 1, 1) {
+		case 0:
+			d := menu[rnd.Intn(len(menu))]
+			if rnd.Intn(2) == 0 {
+				d = s.goodDigest()
+			}
+			s.Verify(d)
+			shape = append(shape, "v")
+		case 1:
+			s.Skip()
+			shape = append(shape, "s")
+		case 2:
+			f := s.randFile(rnd, rnd.Intn(8) != 0)
+			off, n := s.randRead(rnd, f)
+			if err := s.Read(f, off, n); err != nil && rnd.Bool() {
+				if rnd.Bool() {
+					s.setViewC(pr)
+				}
+				s.Read(f, off, n)
+			}
+			shape = append(shape, "r")
+		case 3:
+			if rnd.Bool() {
+				s.CacheAll(nil)
+			} else {
+				s.CacheAll(map[int]bool{s.randFile(rnd, true).Idx: true})
+			}
+			shape = append(shape, "c")
+		case 4:
+			f := s.randFile(rnd, true)
+			workers := 1
+			if s.B.MinChunk == 0 {
+				workers = 1 + rnd.Intn(3)
+			}
+			s.Pass(f, []int64{4, 64, 1 << 20}[rnd.Intn(3)], workers)
+			s.ReadFd(f)
+			shape = append(shape, "P")
+		case 5:
+			if s.CacheClone(s.pickView(rnd)) {
+				shape = append(shape, "k")
+			}
+		}
+	}
+	out.Distinct(strings.Join(shape, "/"))
+}
+
+// RunLayer generates the layer-level scenarios.
+func RunLayer(out *verifutil.Out, rnd *verifutil.Rand, cfg Config) error {
+	cfg.LayerLevel = true
+	pool, err := buildPool(rnd, cfg.Thorough, cfg.NoMinChunk)
+	if err != nil {
+		return err
+	}
+	for i, b := range pool {
+		layerScripted(out, rnd, cfg, b, cfg.Caches[i%len(cfg.Caches)])
+	}
+	for i := 0; i < cfg.N; i++ {
+		layerRandom(out, rnd, cfg, pool, i)
 	}
 	return nil
 }
